@@ -17,6 +17,10 @@
 //! SEAM IN A STRAIGHT RUN: closed 4x2 rectangle outlines (4 vertices per unit) and the dense octagon ring started at EVERY
 //! vertex (so the seam lies on corners and inside straight runs), naturally closed / force-closed (2D) and closed (3D),
 //! simplified with e in {0, 2^-10, 0.01, 2^-5, 0.25} x scale.
+//! WAVE 5 (parameter-space audit, notes/w5_audit_C05.md): see run_wave5 -- shape classes (closed within tolerance,
+//! asymmetric non-convex closed, hairpin, self-crossing), magnitudes (offsets 1e3 .. 1e8, counts up to 10001, RDP recursion
+//! depth 1500), parameter relations (curve tol 0 / 1e-12, simplification tolerance vs curve tolerance), exact and near
+//! ties in gap filling, and sequences of operations.
 //! The oracle is dimension-free brute force on [f64; 3] copies of the vertices.
 use super::Report;
 use crate::common::points::{evenly_spaced_points_between, fill_gaps, ramer_douglas_peucker};
@@ -65,6 +69,15 @@ pub fn at(poly: &[P], cu: &[f64], l: f64) -> P {
 pub fn extent(poly: &[P]) -> f64 {
     let mut m: f64 = 0.0;
     for p in poly { for k in 0..3 { m = m.max(p[k].abs()); } }
+    m
+}
+pub fn bbox_size(poly: &[P]) -> f64 {
+    let mut m: f64 = 0.0;
+    for k in 0..3 {
+        let lo = poly.iter().map(|p| p[k]).fold(f64::INFINITY, f64::min);
+        let hi = poly.iter().map(|p| p[k]).fold(f64::NEG_INFINITY, f64::max);
+        m = m.max(hi - lo);
+    }
     m
 }
 pub fn p2(p: &Point2) -> P { [p.x, p.y, 0.0] }
@@ -262,8 +275,9 @@ fn check_resample(r: &mut Report, cv: &Cv, sd: &str, straight: bool, mode: Mode)
     let src = cv.pts();
     let cu = cum(&src);
     let total = *cu.last().unwrap();
-    let scale = extent(&src).max(total);
-    let eps = 1e-9 * scale;
+    // rounding allowance: 1e-9 of the curve's own size (bounding box / total length) + 1e-12 of the coordinate magnitude
+    // (the same as 1e-9 * max(extent, total) for curves that start at the origin)
+    let eps = 1e-9 * bbox_size(&src).max(total) + 1e-12 * extent(&src);
     let desc = || format!("{} .resample({:?})  [L = {:?}]", sd, mode, total);
     let out = match cv.resample(mode.get()) {
         Ok(c) => { r.check(true, "resample succeeds (no panic, no Err) on a well-posed request", desc); c }
@@ -399,7 +413,7 @@ fn check_rdp_raw(r: &mut Report, pts: &[P], dim: usize, e: f64) {
         guarded(|| ramer_douglas_peucker(&v, e)).map(|o| o.iter().map(p3).collect::<Vec<P>>())
     };
     let v = match res { Ok(v) => v, Err(why) => { r.check(false, "ramer_douglas_peucker succeeds (no panic)", || format!("{} -> {}", desc(), why)); return; } };
-    r.check(v.len() >= 2 && v[0] == pts[0] && v[v.len() - 1] == pts[pts.len() - 1], "ramer_douglas_peucker keeps both end points", || format!("{} -> {:?}", desc(), v));
+    r.check((v.len() >= 2 || pts.len() < 2) && v.len() >= 1 && v[0] == pts[0] && v[v.len() - 1] == pts[pts.len() - 1], "ramer_douglas_peucker keeps both end points", || format!("{} -> {:?}", desc(), v));
     r.check(subsequence(pts, &v).is_some(), "ramer_douglas_peucker keeps a subsequence of the input", || format!("{} -> {:?}", desc(), v));
     let scale = extent(pts);
     let idx = subsequence(pts, &v);
@@ -604,8 +618,159 @@ fn seam_shapes() -> Vec<Shape> {
     out
 }
 
+// ================================================================ wave 5: shape classes, magnitudes, parameter relations, sequences
+/// closed within tolerance, asymmetric non-convex closed, hairpin, self-crossing, tol = 0, far from the origin, deep RDP recursion
+fn w5_shapes() -> Vec<Shape> {
+    let mut out = vec![];
+    let t10 = 1.0 / 1024.0;
+    let mk = |name: &str, dim: usize, pts: Vec<P>, fc: bool, tol: f64| Shape { name: name.to_string(), dim, pts, fc, straight: false, tol, unit: 1.0 };
+    // CLOSED WITHIN TOLERANCE (last vertex != first, gap tol/2, 0.9 tol, tol)
+    for (k, g) in [[0.0, 0.5 * t10, 0.0], [0.75 * t10, 0.5 * t10, 0.0], [0.0, t10, 0.0]].iter().enumerate() {
+        out.push(mk(&format!("quad-closed-within-tol-{}", k), 2, vec![[0.0, 0.0, 0.0], [8.0, 0.0, 0.0], [8.0, 6.0, 0.0], [5.0, 10.0, 0.0], *g], false, t10));
+        out.push(mk(&format!("quad3-closed-within-tol-{}", k), 3, vec![[0.0, 0.0, 0.0], [8.0, 0.0, 0.0], [8.0, 6.0, 0.0], [5.0, 10.0, 3.0], [0.5 * g[0], g[1], 0.5 * g[0]]], false, t10));
+    }
+    out.push(mk("quad-gap-1.5-tol (open)", 2, vec![[0.0, 0.0, 0.0], [8.0, 0.0, 0.0], [8.0, 6.0, 0.0], [5.0, 10.0, 0.0], [0.0, 1.5 * t10, 0.0]], false, t10));
+    // asymmetric non-convex closed hexagon, edges 7, 1, 6, 4, 1, 5
+    let hex: Vec<P> = v2(&[(0.0, 0.0), (7.0, 0.0), (7.0, 1.0), (1.0, 1.0), (1.0, 5.0), (0.0, 5.0)]);
+    let mut hc = hex.clone(); hc.push(hex[0]);
+    out.push(mk("L-hexagon-closed", 2, hc.clone(), false, 1e-7));
+    out.push(mk("L-hexagon-force-closed", 2, hex.clone(), true, 1e-7));
+    out.push(mk("L-hexagon-seam-mid-edge", 2, v2(&[(3.0, 0.0), (7.0, 0.0), (7.0, 1.0), (1.0, 1.0), (1.0, 5.0), (0.0, 5.0), (0.0, 0.0), (3.0, 0.0)]), false, 1e-7));
+    out.push(mk("L-hexagon3-closed (tilted)", 3, hc.iter().map(|q| [q[0], q[1], 0.5 * q[0] - 0.25 * q[1]]).collect(), false, 1e-7));
+    // hairpin, self-crossing
+    out.push(mk("hairpin-open", 2, v2(&[(0.0, 0.0), (8.0, 0.0), (8.0, 0.25), (0.5, 0.25), (0.5, 0.5), (8.0, 0.5)]), false, 1e-7));
+    out.push(mk("hairpin3-open", 3, v3(&[(0.0, 0.0, 0.0), (8.0, 0.0, 0.0), (8.0, 0.25, 0.0), (0.5, 0.25, 0.0), (0.5, 0.25, 0.25), (8.0, 0.25, 0.25)]), false, 1e-7));
+    out.push(mk("figure-eight-closed", 2, v2(&[(0.0, 0.0), (4.0, 3.0), (4.0, 0.0), (0.0, 3.0), (0.0, 0.0)]), false, 1e-7));
+    // tolerance 0 and 1e-12
+    let stair: Vec<P> = v2(&[(0.0, 0.0), (1.0, 0.0), (1.0, 1.0), (1.25, 1.0), (1.5, 1.0), (1.75, 1.0), (2.0, 1.0), (2.0, 3.0), (8.0, 3.0)]);
+    out.push(mk("stair-tol-0", 2, stair.clone(), false, 0.0));
+    out.push(mk("stair3-tol-0", 3, stair.iter().map(|q| [q[0], q[1], q[1] * 0.5]).collect(), false, 0.0));
+    out.push(mk("L-hexagon-closed-tol-0", 2, hc.clone(), false, 0.0));
+    out.push(mk("stair-tol-1e-12", 2, stair.clone(), false, 1e-12));
+    // FAR FROM THE ORIGIN: every base family (unit scale) translated; the curve tolerance stays above the coordinate rounding
+    for (o, tol) in [([1.0e3, -1.0e3, 1.0e3], 1e-7), ([1.0e6, -3.0e5, 2.0e6], 1e-6), ([-1.0e8, 1.0e8, 1.0e8], t10)] {
+        for (name, dim, pts, fc, straight) in base_shapes() {
+            let p: Vec<P> = pts.iter().map(|q| [q[0] + o[0], q[1] + o[1], if dim == 3 { q[2] + o[2] } else { 0.0 }]).collect();
+            out.push(Shape { name: format!("{} at offset {:?}", name, o), dim, pts: p, fc, straight, tol, unit: 1.0 });
+        }
+    }
+    out
+}
+
+/// zig-zag of growing amplitude: Ramer-Douglas-Peucker splits off one vertex at a time (recursion as deep as the curve is long)
+fn growing_zigzag(n: usize, dim: usize) -> Vec<P> {
+    (0..n).map(|i| { let a = if i % 2 == 0 { i as f64 } else { -(i as f64) }; if dim == 2 { [i as f64, a, 0.0] } else { [i as f64, a * 0.5, a] } }).collect()
+}
+
+fn run_wave5(r: &mut Report) {
+    // ---- resampling and simplification on the new shape classes
+    let es = [0.0, 1.0 / 1024.0, 1.0 / 32.0, 0.25, 1.0];
+    for s in w5_shapes().iter() {
+        let cv = match s.build() { Some(c) => c, None => { r.check(false, "the curve of the enumerated family can be built", || s.desc()); continue } };
+        let sd = s.desc();
+        if s.name.contains("closed") && !s.name.contains("open") && !s.name.contains("nearly") { r.check(cv.closed(), "a curve whose end points are within tol of each other (or force-closed) is closed", || sd.clone()); }
+        resample_all(r, &cv, &sd, s.straight, &[2, 3, 4, 5, 7, 8, 16, 17, 33, 64, 65, 100]);
+        near_multiple_requests(r, &cv, &sd, s.straight);
+        let src = cv.pts();
+        let reach = src.iter().map(|p| d(p, &src[0])).fold(0.0, f64::max);
+        for &e in es.iter() {
+            if cv.closed() && e >= reach / 2.0 { continue; }
+            check_simplify(r, &cv, &sd, e);
+            check_rdp_raw(r, &src, s.dim, e);
+        }
+        // parameter relation: simplification tolerance below / equal to / just above the curve's own tolerance
+        for e in [cv.tol() * 0.5, cv.tol(), cv.tol() * 2.0] { check_simplify(r, &cv, &sd, e); }
+    }
+    // ---- vertex counts beyond 130: 1000, 4097, 10001 samples
+    for s in scaled_shapes(&[0]).iter().chain(w5_shapes().iter().take(9)) {
+        if !["L-3-4", "octagon-dense-closed", "pyth3-open", "zigzag-3-4-5", "quad-closed-within-tol-0", "quad3-closed-within-tol-0", "L-hexagon-force-closed"].iter().any(|n| s.name.starts_with(n)) { continue; }
+        let cv = match s.build() { Some(c) => c, None => continue };
+        for n in [1000usize, 4097, 10001] { check_resample(r, &cv, &s.desc(), s.straight, Mode::ByCount(n)); }
+        let total = cv.length();
+        check_resample(r, &cv, &s.desc(), s.straight, Mode::ByMaxSpacing(total / 2999.5));
+        check_resample(r, &cv, &s.desc(), s.straight, Mode::BySpacing(total / 1500.25));
+    }
+    // ---- deep recursion: growing zig-zag, every vertex is significant for small e; for large e only the big ones
+    for dim in [2usize, 3] { for n in [100usize, 300, 1500] {
+        let pts = growing_zigzag(n, dim);
+        let s = Shape { name: format!("growing zig-zag, {} vertices (i, +-i)", n), dim, pts: pts.clone(), fc: false, straight: false, tol: 1e-7, unit: 1.0 };
+        let cv = match s.build() { Some(c) => c, None => continue };
+        let sd = if n > 100 { format!("Curve{}::from_points(growing_zigzag({}, {}) of bounded/c05.rs: vertex i = (i, +-i{}), tol=1e-7)", dim, n, dim, if dim == 3 { "/2, +-i" } else { "" }) } else { s.desc() };
+        for e in [0.25, 10.0, n as f64 / 3.0, n as f64] {
+            check_simplify(r, &cv, &sd, e);
+            if n <= 300 { check_rdp_raw(r, &pts, dim, e); }
+        }
+    } }
+    // ---- SEQUENCES: the operations compose (every clause again on the result of an earlier operation)
+    for s in scaled_shapes(&[-9, 0, 6]).iter().chain(w5_shapes().iter().take(16)) {
+        let cv = match s.build() { Some(c) => c, None => continue };
+        let total = cv.length();
+        let closed = cv.closed();
+        for first in [Mode::ByCount(17), Mode::ByMaxSpacing(total * 0.11), Mode::BySpacing(total * 0.0625)] {
+            let a = match cv.resample(first.get()) { Ok(a) => a, Err(_) => continue };
+            let sd = format!("{} .resample({:?})", s.desc(), first);
+            let ta = a.length();
+            for second in [Mode::ByCount(9), Mode::ByCount(40), Mode::ByMaxSpacing(ta * 0.3), Mode::BySpacing(ta * 0.05)] {
+                if a.closed() != closed { break; }
+                check_resample(r, &a, &sd, s.straight, second);
+            }
+            let src = a.pts();
+            let reach = src.iter().map(|p| d(p, &src[0])).fold(0.0, f64::max);
+            for e in [0.0, s.unit / 32.0, s.unit * 0.25] { if a.closed() && e >= reach / 2.0 { continue; } check_simplify(r, &a, &sd, e); }
+        }
+        // simplified first, then resampled / simplified again with a smaller and a larger tolerance
+        for e in [s.unit / 128.0, s.unit * 0.25] {
+            let src = cv.pts();
+            let reach = src.iter().map(|p| d(p, &src[0])).fold(0.0, f64::max);
+            if closed && e >= reach / 2.0 { continue; }
+            let a = match cv.simplify(e) { Ok(a) => a, Err(_) => continue };
+            let sd = format!("{} .simplify({:?})", s.desc(), e);
+            if a.closed() && a.pts().len() < 4 { continue; }
+            for second in [Mode::ByCount(5), Mode::ByCount(33), Mode::ByMaxSpacing(a.length() * 0.3)] { check_resample(r, &a, &sd, s.straight, second); }
+            let src2 = a.pts();
+            let reach2 = src2.iter().map(|p| d(p, &src2[0])).fold(0.0, f64::max);
+            for e2 in [e * 0.5, e, e * 4.0] { if a.closed() && e2 >= reach2 / 2.0 { continue; } check_simplify(r, &a, &sd, e2); }
+        }
+    }
+    // ---- RDP on degenerate inputs: one point, two points, repeated points, all points equal
+    for dim in [2usize, 3] {
+        let z = |x: f64, y: f64| -> P { if dim == 2 { [x, y, 0.0] } else { [x, y, x - y] } };
+        let lists: Vec<Vec<P>> = vec![
+            vec![z(1.0, 2.0)], vec![z(1.0, 2.0), z(3.0, -1.0)], vec![z(1.0, 2.0), z(1.0, 2.0)], vec![z(1.0, 2.0), z(1.0, 2.0), z(1.0, 2.0)],
+            vec![z(0.0, 0.0), z(1.0, 1.0), z(1.0, 1.0), z(2.0, 0.0), z(2.0, 0.0), z(4.0, 0.0)],
+            vec![z(0.0, 0.0), z(2.0, 0.0), z(1.0, 0.0), z(3.0, 0.0)], vec![z(0.0, 0.0), z(1.0, 0.0), z(2.0, 0.0), z(3.0, 0.0), z(4.0, 0.0)],
+        ];
+        for l in lists.iter() { for e in [0.0, 0.5, 1.0, 1.5, f64::INFINITY] { if l.len() >= 1 { check_rdp_raw(r, l, dim, e); } } }
+    }
+    // ---- gap filling: far from the origin, tiny and huge scales, exact ties d == k * max, identity when nothing is too far
+    for (o, f) in [([0.0, 0.0, 0.0], 2f64.powi(-30)), ([0.0, 0.0, 0.0], 2f64.powi(20)), ([1.0e6, -3.0e5, 2.0e6], 1.0), ([-1.0e8, 1.0e8, 1.0e8], 1.0), ([1.0e3, 1.0e3, -1.0e3], 0.125)] {
+        for dim in [2usize, 3] {
+            let q = |x: f64, y: f64, z: f64| -> P { [o[0] + x * f, o[1] + y * f, if dim == 3 { o[2] + z * f } else { 0.0 } ] };
+            let chain: Vec<P> = vec![q(0.0, 0.0, 0.0), q(3.0, 4.0, 0.0), q(3.0, 4.0, 0.0), q(3.0, 10.0, 8.0), q(3.5, 10.0, 8.0), q(-4.5, 10.0, 8.0), q(-4.5, 10.0, 8.0), q(0.0, 0.0, 0.0)];
+            for m in [0.25, 0.5, 1.0, 1.25, 2.0, 2.5, 5.0, 8.0, 10.0, 64.0] { check_fill(r, &chain, dim, m * f); }
+            // exact ties: an axis-parallel gap of k units with max = 1 unit (k = 1 .. 6), and max = gap (nothing to insert)
+            for k in 1..=6 { let pair = vec![q(1.0, 2.0, 3.0), q(1.0 + k as f64, 2.0, 3.0)]; check_fill(r, &pair, dim, f); check_fill(r, &pair, dim, k as f64 * f); check_fill(r, &pair, dim, 0.5 * k as f64 * f); }
+        }
+    }
+    // near ties: a gap a 2^-33 fraction longer / shorter than k times the maximum (k inserted points needed / k - 1 suffice)
+    for dim in [2usize, 3] { for k in 1..=5usize { for sign in [-1.0, 1.0] { for f in [1.0, 2f64.powi(-12), 2f64.powi(9)] {
+        let g = k as f64 * (1.0 + sign * 2f64.powi(-33)) * f;
+        let pair: Vec<P> = if dim == 2 { vec![[2.0 * f, -1.0 * f, 0.0], [2.0 * f, -1.0 * f + g, 0.0]] } else { vec![[2.0 * f, -1.0 * f, f], [2.0 * f, -1.0 * f, f + g]] };
+        check_fill(r, &pair, dim, f);
+    } } } }
+    // filling twice with the same maximum changes nothing (exact arithmetic cases: axis-parallel integer gaps, dyadic maxima)
+    for dim in [2usize, 3] { for m in [0.25, 0.5, 1.0, 2.0, 4.0] {
+        let pts: Vec<P> = vec![[0.0, 0.0, 0.0], [5.0, 0.0, 0.0], [5.0, 3.0, 0.0], [5.0, 3.0, 0.0], [-2.0, 3.0, 0.0], [-2.0, 3.5, 0.0]];
+        r.case();
+        let once: Vec<P> = if dim == 2 { fill_gaps(&pts.iter().map(to2).collect::<Vec<_>>(), m).iter().map(p2).collect() } else { fill_gaps(&pts.iter().map(to3).collect::<Vec<_>>(), m).iter().map(p3).collect() };
+        let twice: Vec<P> = if dim == 2 { fill_gaps(&once.iter().map(to2).collect::<Vec<_>>(), m).iter().map(p2).collect() } else { fill_gaps(&once.iter().map(to3).collect::<Vec<_>>(), m).iter().map(p3).collect() };
+        r.check(once == twice, "fill_gaps applied to its own result inserts nothing more (no pair is farther apart than max any more)", || format!("fill_gaps::<{}>(fill_gaps({:?}, {:?}), {:?}) -> {} points after {}", dim, pts, m, m, twice.len(), once.len()));
+        check_fill(r, &once, dim, m);
+    } }
+}
+
 const OPS: [&str; 7] = [".resample ByCount", ".resample BySpacing", ".resample ByMaxSpacing", ".simplify", "ramer_douglas_peucker: tol =", "fill_gaps: max_dist =", "evenly_spaced_points_between: n ="];
-const BOUND: &str = "2D/3D curves: 17 families with small integer/dyadic vertices (open, naturally closed, force-closed, uneven vertex density) x power-of-two scales with total length in [1e-3, 1.3e3], plus straight segments of 45 lengths (1..20, 0.1..0.9, 1e-3..1e3) x every count 2..=130; resample by count (2..=31, 50, 64, 100, 101, 120), by spacing and by max spacing (10 relative + 9 absolute values); simplify with e in {0, 2^-10, 2^-7, 2^-5, 1/4, 1} x scale plus 1e-3 / 1e-2 on closed rings of extent ~0.02, and on resampled (dense) copies; fill_gaps / evenly_spaced_points_between on 2D/3D integer-grid point pairs and chains (incl. oblique gaps) x 11 maxima x 3 scales, and single gaps of 1000 .. 12000 times the maximum; NEAR-MULTIPLE: every family x (max) spacings (L -/+ d)/k, k in {1..6,10,17}, d in {0, tol/2, tol, 1e-6 L, 1e-9 L, 1e-11 L}, and 2D/3D straight / bent curves of length k*m + d (m in {2.5, 1, 0.3}, k in {1,4,7}, tol in {1e-4,1e-6}, d in {tol/2, 0.99 tol, tol/1024, 2 tol}); TINY EDGES: 2D/3D curves of 1300 edges of length 6e-7 / 7.7e-7 (tol 1e-9) and unit-size curves with 64 such edges around L/2; SEAM IN A STRAIGHT RUN: 4x2 rectangle outline (48 vertices) and dense octagon ring (24 vertices) started at every vertex, closed / force-closed / tilted 3D, simplified with e in {0, 2^-10, 0.01, 2^-5, 0.25} x scale";
+const BOUND: &str = "2D/3D curves: 17 families with small integer/dyadic vertices (open, naturally closed, force-closed, uneven vertex density) x power-of-two scales with total length in [1e-3, 1.3e3], plus straight segments of 45 lengths (1..20, 0.1..0.9, 1e-3..1e3) x every count 2..=130; resample by count (2..=31, 50, 64, 100, 101, 120), by spacing and by max spacing (10 relative + 9 absolute values); simplify with e in {0, 2^-10, 2^-7, 2^-5, 1/4, 1} x scale plus 1e-3 / 1e-2 on closed rings of extent ~0.02, and on resampled (dense) copies; fill_gaps / evenly_spaced_points_between on 2D/3D integer-grid point pairs and chains (incl. oblique gaps) x 11 maxima x 3 scales, and single gaps of 1000 .. 12000 times the maximum; NEAR-MULTIPLE: every family x (max) spacings (L -/+ d)/k, k in {1..6,10,17}, d in {0, tol/2, tol, 1e-6 L, 1e-9 L, 1e-11 L}, and 2D/3D straight / bent curves of length k*m + d (m in {2.5, 1, 0.3}, k in {1,4,7}, tol in {1e-4,1e-6}, d in {tol/2, 0.99 tol, tol/1024, 2 tol}); TINY EDGES: 2D/3D curves of 1300 edges of length 6e-7 / 7.7e-7 (tol 1e-9) and unit-size curves with 64 such edges around L/2; SEAM IN A STRAIGHT RUN: 4x2 rectangle outline (48 vertices) and dense octagon ring (24 vertices) started at every vertex, closed / force-closed / tilted 3D, simplified with e in {0, 2^-10, 0.01, 2^-5, 0.25} x scale; PLUS (wave 5, notes/w5_audit_C05.md) curves closed within tolerance (gap tol/2 .. tol, 2D/3D) / gap 1.5 tol, asymmetric non-convex closed hexagon (closed, force-closed, seam mid-edge, tilted 3D), hairpin, figure eight, curve tol in {0, 1e-12, 2^-10}, every family translated by 1e3 / 1e6 / 1e8, simplification tolerance tol/2, tol, 2 tol; counts 65, 1000, 4097, 10001 and spacings L/1500.25, L/2999.5; growing zig-zag of 100 / 300 / 1500 vertices (RDP recursion as deep as the curve is long); sequences resample-resample, resample-simplify, simplify-resample, simplify-simplify; RDP on 1 / 2 / repeated / identical points and e = +inf; fill_gaps at offsets 1e3 .. 1e8, scales 2^-30 / 2^20, exact ties gap == k max and near ties gap == k max (1 +- 2^-33), applied twice";
 pub fn run() -> Option<Report> { Some(dog::run(BOUND, &OPS, run_inner)) }
 
 fn run_inner() -> Report {
@@ -750,5 +915,6 @@ fn run_inner() -> Report {
     for s in scaled_shapes(&[-9, 0, 6]).iter() {
         for m in [0.3, 1.0, 2.5] { check_fill(&mut r, &s.pts, s.dim, m * s.unit); }
     }
+    run_wave5(&mut r);
     r
 }
